@@ -31,7 +31,8 @@ theorem collect_eq_inventory (loc : Locator) (m : Module)
   exact insertAll_of_nodup (by simpa [inventory] using h)
 
 /-- nothing else: the result does not depend on function bodies (nested functions and classes),
-    on classes nested in classes, on property setters/deleters, or on code under the main guard —
+    on classes nested in classes, on property setters/deleters, or on code under the main guard
+    (either spelling; its `else` branch is ordinary module-level code) —
     replacing all of them by inert statements leaves the collection unchanged. -/
 theorem nothing_else (loc : Locator) (m : Module) :
     visitModule loc m = visitModule loc { m with body := prune m.body false } := by
@@ -55,7 +56,7 @@ theorem nothing_else_setter (loc : Locator) (a : Bool) (n : Str) (ds : List Deco
 
 theorem nothing_else_main_guard (loc : Locator) (t : Test) (r1 r2 : Bool) (b e next : Tree) (st : St)
     (h : isMainGuard t = true) :
-    visit loc (.ifs t r1 r2 b e next) st = visit loc next st := by
+    visit loc (.ifs t r1 r2 b e next) st = visit loc next (visit loc e st) := by
   simp [visit, h]
 
 /-- every collected key is the key of an inventory entry, and conversely -/
@@ -76,29 +77,32 @@ theorem identifiers_nodup (loc : Locator) (m : Module) : (keys (visitModule loc 
 example : skipDeco [.name "property".toList] = false := by decide
 example : skipDeco [.attr "setter".toList] = true := by decide
 example : skipDeco [.other, .attr "deleter".toList] = true := by decide
-example : isMainGuard ⟨true, true, some "__name__".toList, some "__main__".toList⟩ = true := by decide
-/-- `'__main__' == __name__` is NOT recognised (finding K-C07-a) -/
-example : isMainGuard ⟨true, true, none, none⟩ = false := by decide
+example : isMainGuard { isCompare := true, op0Eq := true, leftId := some "__name__".toList, comp0 := some "__main__".toList } = true := by decide
+/-- `'__main__' == __name__` is recognised as well (repair 29b8101) -/
+example : isMainGuard { isCompare := true, op0Eq := true, leftId := none, comp0 := none, leftStr := some "__main__".toList, comp0Id := some "__name__".toList } = true := by decide
+example : isMainGuard { isCompare := true, op0Eq := false, leftId := some "__name__".toList, comp0 := some "__main__".toList } = false := by
+  decide
 
 /-- non-vacuity of `collect_eq_inventory` : a module with a docstring, a decorated async function
     with a nested function, a class with a method, a property with setter, a nested class, and a
-    main guard. -/
+    main guard whose `else` branch holds a definition. -/
 def demoModule : Module :=
-  { doc := some ⟨"m".toList, 1⟩,
+  { doc := some ⟨"m".toList, 1, 1⟩,
     body :=
-      .func true "f".toList [.other] (some ⟨"d".toList, 3⟩) (.func false "inner".toList [] none .done .done) <|
+      .func true "f".toList [.other] (some ⟨"d".toList, 3, 3⟩) (.func false "inner".toList [] none .done .done) <|
       .cls "C".toList [] none
         (.func false "m".toList [] none .done <|
-         .func false "p".toList [.name "property".toList] (some ⟨"g".toList, 9⟩) .done <|
+         .func false "p".toList [.name "property".toList] (some ⟨"g".toList, 9, 9⟩) .done <|
          .func false "p".toList [.attr "setter".toList] none .done <|
          .cls "N".toList [] none (.func false "x".toList [] none .done .done) .done) <|
-      .ifs ⟨true, true, some "__name__".toList, some "__main__".toList⟩ false false
-        (.func false "hidden".toList [] none .done .done) .done <|
+      .ifs { isCompare := true, op0Eq := true, leftId := some "__name__".toList, comp0 := some "__main__".toList } false false
+        (.func false "hidden".toList [] none .done .done)
+        (.func false "onimport".toList [] none .done .done) <|
       .comp true (.func false "g".toList [] none .done .done) .done }
 
 example : (keys (inventory (fun _ => none) demoModule)).Nodup := by decide
 example : keys (visitModule (fun _ => none) demoModule) =
-    ["__doc__", "f", "C", "C.m", "C.p", "g"].map String.toList := by decide
+    ["__doc__", "f", "C", "C.m", "C.p", "onimport", "g"].map String.toList := by decide
 
 /-! ## `package_modpaths` -/
 
